@@ -126,6 +126,29 @@ def run(ctx):
                [site(b, c.bb) for c in (bad or consumers)])
     ctx.floor(R3, len(uses), 4, 'accesses to the id generators (2 generate_*, 2 fetch_max in bootstrap)')
 
+    R4 = 'C10-R4'
+    ctx.rule(R4, 'table ids follow the log: the manifest does not store table ids, replay re-derives them from the order of the '
+                 'CreateTable records; so the catalog update that allocates the id (apply_create_table) must come after the record '
+                 'was appended under the manifest lock (commit_changes completed), or both must sit under one async lock taken '
+                 'before either. Allocating first and then queueing on the manifest lock lets two sessions log in the other order: '
+                 'after reopen the tables have swapped ids and each sees the other\'s row-sets')
+    CT = SEC + 'manifest::<impl storage::secondary::SecondaryStorage>::create_table_inner::{closure#0}'
+    b = prog.body(CT)
+    if ctx.anchor(R4, CT, b is not None):
+        ctx.functions_analysed.add(b.name)
+        A = set(done_sites(prog, b, DURABLE))
+        B = start_sites(prog, b, 'apply_create_table')
+        if ctx.anchor(R4, 'create_table_inner: commit_changes / apply_create_table', A and B):
+            ddl = {c.bb for c in b.calls if re.search(r'(tokio::sync::Mutex|futures::lock::Mutex|async_lock::Mutex)::<.*>::lock$|'
+                                                      r'tokio::sync::RwLock::<.*>::write$', c.name or '')}
+            bad = [x for x in B if not b.dominated_by_any(A, x) and not (ddl and b.dominated_by_any(ddl, x)
+                                                                         and all(b.dominated_by_any(ddl, a) for a in A))]
+            ctx.ob(R4, 'create_table_inner·log≺allocate', not bad,
+                   f'apply_create_table (blocks {B}) must be dominated by the completion of commit_changes (blocks {sorted(A)}) '
+                   f'or both by one async lock ({sorted(ddl)}); not so at {bad}', [site(b, x) for x in (bad or B)],
+                   what='CREATE TABLE allocates the table id before its record is appended: concurrent creates can log in a '
+                        'different order than their ids; after reopen row-sets show up under the wrong table')
+
 
 def guards_across_yield(prog):
     """(body, lock call, guard local, yield blocks reached while the guard is alive) for every blocking lock in a coroutine"""
